@@ -370,19 +370,30 @@ Fixpoint mon_stored (prev : gcv) (ops : list op) (obl : list (obs * view)) : opt
 
 Definition all_le (l : list Z) (r : Z) : bool := forallb (fun a => (a <=? r)%Z) l.
 
-(* clause 1b: a response is >= every value acknowledged before the request began *)
-Fixpoint mon_resp (acked : list Z) (pend : list (nat * list Z)) (ops : list op) (obl : list (obs * view)) : bool :=
+(* clause 1b: a response is >= every value acknowledged before the request began.
+   The signature says what preceded in the trace: a released parked update (the known interleaving), a
+   service id that escaped onto the cluster key, or neither. *)
+Definition resp_sig (fin esc : bool) : string :=
+  if esc then "C15:response-below-acknowledged:after-service-id-path-escape"
+  else if fin then "C15:response-below-acknowledged:after-overlapping-updates"
+  else "C15:response-below-acknowledged".
+
+Fixpoint mon_resp (fin esc : bool) (acked : list Z) (pend : list (nat * list Z)) (ops : list op) (obl : list (obs * view)) : option string :=
   match ops, obl with
   | o :: r, (b, _) :: br =>
+      let esc1 := esc || escapes_to_gc o in
       match o, b with
-      | OUpd _ _, BResp x | OGet, BResp x | OBegin _ _, BResp x | OWake _, BResp x => all_le acked x && mon_resp (x :: acked) pend r br
-      | OBegin t _, BStarted => mon_resp acked ((t, acked) :: pend) r br
+      | OUpd _ _, BResp x | OGet, BResp x | OBegin _ _, BResp x | OWake _, BResp x =>
+          if all_le acked x then mon_resp fin esc1 (x :: acked) pend r br else Some (resp_sig fin esc1)
+      | OBegin t _, BStarted => mon_resp fin esc1 acked ((t, acked) :: pend) r br
       | OFinish t _, BResp x =>
           let before := match find (fun p => Nat.eqb (fst p) t) pend with Some p => snd p | None => [] end in
-          all_le before x && mon_resp (x :: acked) (filter (fun p => negb (Nat.eqb (fst p) t)) pend) r br
-      | _, _ => mon_resp acked pend r br
+          if all_le before x then mon_resp true esc1 (x :: acked) (filter (fun p => negb (Nat.eqb (fst p) t)) pend) r br
+          else Some (resp_sig true esc1)
+      | OFinish _ _, _ => mon_resp true esc1 acked pend r br
+      | _, _ => mon_resp fin esc1 acked pend r br
       end
-  | _, _ => true
+  | _, _ => None
   end.
 
 Definition live_b (now : Z) (e : entry) : bool := (now <=? e_exp e)%Z.
@@ -394,8 +405,12 @@ Definition is_clean (i : sid) : bool :=
 (* clauses 2-5 on every answered UpdateServiceGCSafePoint, from the storage views before and after it *)
 Definition mon_svc1 (pre : list entry) (o : op) (b : obs) (post : list entry) : option string :=
   match o, b with
-  | OSvc i ttl sp now _ _, BMin mt mttl msp =>
-      if negb (forallb (fun e => negb (live_b now e) || (msp <=? e_sp e)%Z) post)
+  | OSvc i ttl sp now lo hi, BMin mt mttl msp =>
+      (* `now` is recovered from the answered TTL and the stored expiry of the reported service: it must
+         lie in the wall-clock bracket of the call *)
+      if ((now <? lo - clock_slack) || (hi + clock_slack <? now))%Z
+      then Some "C15:answered-ttl-inconsistent-with-stored-expiry"
+      else if negb (forallb (fun e => negb (live_b now e) || (msp <=? e_sp e)%Z) post)
       then Some "C15:min-above-live-service"
       else if (0 <? ttl)%Z && (sp <? msp)%Z
               && match find_text (text_of i) post with
@@ -423,20 +438,15 @@ Fixpoint mon_svc (pre : list entry) (ops : list op) (obl : list (obs * view)) : 
   | _, _ => None
   end.
 
-Definition monitor (c : case) : option string :=
-  match mon_stored GAbsent (fst c) (snd c) with
-  | Some sg => Some sg
-  | None =>
-      if negb (mon_resp [] [] (fst c) (snd c)) then Some "C15:response-below-acknowledged"
-      else mon_svc [] (fst c) (snd c)
-  end.
+(* the three groups of clauses are evaluated independently: a known violation of one does not hide another *)
+Definition opt_list (o : option string) : list string := match o with Some x => [x] | None => [] end.
+Definition monitor (c : case) : list string :=
+  app (opt_list (mon_stored GAbsent (fst c) (snd c)))
+      (app (opt_list (mon_resp false false [] [] (fst c) (snd c))) (opt_list (mon_svc [] (fst c) (snd c)))).
 
 Fixpoint monitor_fails_from (n : nat) (cs : list case) : list (nat * string) :=
   match cs with
   | [] => []
-  | c :: r => match monitor c with
-              | None => monitor_fails_from (S n) r
-              | Some sg => (n, sg) :: monitor_fails_from (S n) r
-              end
+  | c :: r => app (map (fun sg => (n, sg)) (monitor c)) (monitor_fails_from (S n) r)
   end.
 Definition monitor_fails := monitor_fails_from 0.
